@@ -119,6 +119,9 @@ class PathGen:
         kinds = [k for k in w if w[k] > 0]
         kind = rng.choices(kinds, [w[k] for k in kinds])[0]
         if kind == "key":
+            if prev_rec and rng.random() < 0.12:
+                # the empty member name directly after a recursive step (both render as "..")
+                return ["k", ""], ([chain + [v[""]]] if isinstance(v, dict) and "" in v else [])
             if guided and isinstance(v, dict) and v and rng.random() < 0.8:
                 k = rng.choice(list(v.keys()))
             else:
